@@ -613,7 +613,7 @@ func TestVerif_C06_monitor(t *testing.T) {
 			if tol[k] == "ok" {
 				race = true
 			} else {
-				verdict = tol[k] // what remains once the race is discounted
+				verdict = tol[k]                                    // what remains once the race is discounted
 				if at := strings.LastIndex(verdict, "@"); at >= 0 { // "@<index of the rejected event>"
 					fmt.Sscan(verdict[at+1:], &badAt)
 					verdict = verdict[:at]
